@@ -81,7 +81,20 @@ ExprNumCases ==
     \cup {[fam |-> "exprnum", fn |-> "-", args |-> <<x>>, ctx |-> cx, allowed |-> {"ok", "err"}] :
               x \in Extremes, cx \in {"loop-count", "loop-start-step", "geometry", "for-data", "repeat-text", "config-limit", "font-size", "seed"}}
 
-Cases == CASE Family = "exprnum" -> ExprNumCases [] Family = "depth" -> DepthCases [] Family = "lex" -> LexCases [] Family = "exprlex" -> ExprLexCases [] OTHER -> {}
+\* attributes with a grammar of their own (number lists, transform functions, locations,
+\* element references, lengths with units): every value class in every attribute, on every
+\* kind of element that reads the attribute
+MicroAttrs == {"transform:translate", "transform:scale", "transform:rotate", "transform:skewX", "transform:matrix", "transform:raw",
+               "xy", "cxy", "wh", "dxy", "xy1", "xy2", "x", "width", "r", "rx", "rxy", "points", "d", "start", "end",
+               "text-dxy", "text-offset", "text-loc", "text-lsp", "font-size", "margin", "surround", "inside",
+               "corner-offset", "corner-radius", "edge-type", "rotate", "href", "viewBox", "style", "class", "clip-path"}
+ValueClasses == {"empty", "space", "word", "unit", "mixed", "comma-only", "many", "open-paren", "neg", "pct", "elref", "elref-missing",
+                 "elref-loc", "elref-dangling", "nan", "inf", "huge", "tiny", "expr", "expr-list", "nonascii", "loc", "dir", "sci", "plus", "dot", "semicolon"}
+AttrHosts == {"rect", "rect-content", "g", "text", "line", "connector", "polyline-connector", "circle", "use", "reuse", "path", "root"}
+AttrLexCases == {[fam |-> "attrlex", attr |-> a, cls |-> v, host |-> h, allowed |-> {"ok", "err"}] :
+                    a \in MicroAttrs, v \in ValueClasses, h \in AttrHosts}
+
+Cases == CASE Family = "attrlex" -> AttrLexCases [] Family = "exprnum" -> ExprNumCases [] Family = "depth" -> DepthCases [] Family = "lex" -> LexCases [] Family = "exprlex" -> ExprLexCases [] OTHER -> {}
 Init == c \in Cases
 Next == UNCHANGED c
 Spec == Init /\ [][Next]_c
